@@ -354,6 +354,11 @@ Definition ev_ok (c : cache) (e : cache_ev) : Prop :=
   | EvPodAdd t =>
     nonneg (t_req t) /\ t_status t <> Pipelined /\ t_status t <> Binding /\
     forall i n, t_node t = Some i -> c_nodes c !! i = Some n -> n_has_node n = true -> fits eps (t_req t) (amt (n_idle n))
+  | EvUpdateUnbound _ => True
+  | EvBoundArrives tid =>
+    forall st i, c_heap c !! tid = Some st -> t_status st = Binding -> t_node st = Some i ->
+      t_id st = tid /\
+      forall n, c_nodes c !! i = Some n -> exists cp, n_tasks n !! tid = Some cp /\ t_req cp = t_req st
   end.
 
 Lemma bnode_placeholder i : bnode_ok (placeholder i).
@@ -381,10 +386,38 @@ Proof.
   apply nodes_all_insert; [exact Hall|]. apply bnode_remove. apply (Hall _ _ E).
 Qed.
 
+(* deletePod + addPod of a pod the node holds: the copy is removed and re-filed with the same request *)
+Lemma readd_ok ns st t' :
+  nodes_all bnode_ok ns -> nonneg (t_req st) -> t_req t' = t_req st -> t_node t' = t_node st ->
+  t_status t' <> Pipelined -> terminated (t_status st) = false ->
+  (forall i n, t_node st = Some i -> ns !! i = Some n ->
+     exists cp, n_tasks n !! t_id st = Some cp /\ t_req cp = t_req st) ->
+  nodes_all bnode_ok (add_to_node eps (remove_from_node ns st) t').
+Proof.
+  intros Hall Hnn Hreq Hnode Hnp Hterm Hcp.
+  apply add_to_node_ok; [apply remove_from_node_ok; exact Hall|rewrite Hreq; exact Hnn|exact Hnp|].
+  rewrite Hnode. intros i n Hi Hl. right. intros Hh.
+  unfold remove_from_node in Hl. rewrite Hi in Hl. destruct (ns !! i) as [n0|] eqn:E0; [|rewrite E0 in Hl; discriminate].
+  rewrite Hterm, lookup_insert in Hl. inversion Hl; subst n. clear Hl.
+  destruct (Hcp i n0 Hi E0) as (cp & Hlcp & Hrcp). destruct (Hall _ _ E0) as [Hi0 Hc0].
+  rewrite node_remove_has in Hh. destruct (Hi0 Hh) as [Hs0 Hidle0]. destruct (Hc0 _ _ Hlcp) as [_ Hcpnp].
+  assert (Hidle1 : forall d, amt (n_idle (node_remove n0 (t_id st))) d = amt (n_idle n0) d + amt (t_req st) d).
+  { intros d. unfold node_remove. rewrite Hlcp, Hh, Hrcp. simpl. destruct (t_status cp); try congruence; simpl; apply amt_add. }
+  intros d Hd. rewrite Hreq, (Hidle1 d). specialize (Hidle0 d Hd). lia.
+Qed.
+
+(* a bind in flight keeps its reservation: an update whose object has no nodeName yet is ignored
+   for a pod the cache holds in an allocated status (updatePod's guard; seeded mutant C02-r3-1
+   restricts it to resyncs) *)
+Theorem update_unbound_keeps_reservation c tid st :
+  c_heap c !! tid = Some st -> allocated_status (t_status st) = true ->
+  cache_event eps c (EvUpdateUnbound tid) = c.
+Proof. intros Hl Ha. simpl. rewrite Hl, Ha. reflexivity. Qed.
+
 (* every cache event keeps the invariant *)
 Theorem cache_event_keeps c e : cinv c -> ev_ok c e -> cinv (cache_event eps c e).
 Proof.
-  intros [Hheap Hall] Hev. destruct e as [nid alloc|tid|tid|t]; simpl.
+  intros [Hheap Hall] Hev. destruct e as [nid alloc|tid|tid|t|tid|tid]; simpl.
   - (* node add / update: the ledger is recomputed *)
     destruct Hev as [Hs Hsum]. split; [exact Hheap|]. simpl. unfold node_event. apply nodes_all_insert; [exact Hall|].
     destruct (c_nodes c !! nid) as [n|] eqn:E; simpl in Hsum.
@@ -416,6 +449,21 @@ Proof.
     destruct Hev as (Hnn & Hnp & Hnb & Hfit). split; simpl.
     + intros i u Hl. apply lookup_insert_Some in Hl as [[_ <-]|[_ Hl]]; [split; assumption|apply (Hheap _ _ Hl)].
     + apply add_to_node_ok; try assumption. intros i n Hi Hl. right. apply (Hfit i n Hi Hl).
+  - (* update of a pod whose object is still unbound *)
+    destruct (c_heap c !! tid) as [st|] eqn:Eh; [|split; assumption].
+    destruct (allocated_status (t_status st)); [split; assumption|]. destruct (Hheap _ _ Eh) as [Hnn Hnp].
+    split; simpl.
+    + intros i u Hl. apply lookup_insert_Some in Hl as [[_ <-]|[_ Hl]]; [split; [exact Hnn|simpl; discriminate]|apply (Hheap _ _ Hl)].
+    + apply remove_from_node_ok. exact Hall.
+  - (* the bound pod arrives *)
+    destruct (c_heap c !! tid) as [st|] eqn:Eh; [|split; assumption].
+    destruct (t_status st) eqn:Est; try (split; assumption).
+    destruct (t_node st) as [i|] eqn:En; [|split; assumption]. destruct (Hheap _ _ Eh) as [Hnn Hnp].
+    destruct (Hev st i Eh Est En) as [Hid Hcp].
+    split; simpl.
+    + intros k u Hl. apply lookup_insert_Some in Hl as [[_ <-]|[_ Hl]]; [split; [exact Hnn|simpl; discriminate]|apply (Hheap _ _ Hl)].
+    + apply readd_ok; [exact Hall|exact Hnn|reflexivity|reflexivity|simpl; discriminate|rewrite Est; reflexivity|].
+      intros k n Hk Hl. rewrite En in Hk. inversion Hk; subst k. rewrite Hid. apply (Hcp n Hl).
 Qed.
 
 (* AddBindTask keeps it too *)
